@@ -353,6 +353,77 @@ func c18FailedCalls(c *Ctx, prog *load.Program) {
 	errT := types.Universe.Lookup("error").Type()
 	pkgs := []string{models.Mod, models.SececPkg, models.BitcoinPkg, models.H2cPkg}
 	count := 0
+	// an unexported helper whose analysis on arbitrary arguments is incomplete (it relies on what its callers established,
+	// e.g. a length) is decided in the context of its callers when every one of them is decided with the helper inlined
+	covered := map[*ssa.Function]bool{}
+	type pending struct {
+		fn       *ssa.Function
+		key, pos string
+		why      string
+	}
+	var deferred []pending
+	undecided := func(fn *ssa.Function, key, pos, why string) {
+		if !token.IsExported(fn.Name()) {
+			deferred = append(deferred, pending{fn, key, pos, why})
+			return
+		}
+		c.R.Unknown("C18-3", key, pos, why)
+	}
+	defer func() {
+		callers := map[*ssa.Function][]*ssa.Function{}
+		for _, f := range ModuleFuncs(prog) {
+			for _, b := range f.Blocks {
+				for _, in := range b.Instrs {
+					if call, ok := in.(ssa.CallInstruction); ok {
+						if g := call.Common().StaticCallee(); g != nil {
+							top := f
+							for top.Parent() != nil {
+								top = top.Parent()
+							}
+							callers[g] = append(callers[g], top)
+						}
+					}
+					for _, op := range in.Operands(nil) {
+						if g, ok := (*op).(*ssa.Function); ok && op != nil {
+							if call, isCall := in.(ssa.CallInstruction); !isCall || call.Common().Value != ssa.Value(g) {
+								callers[g] = append(callers[g], nil) // used as a value: unknown callers
+							}
+						}
+					}
+				}
+			}
+		}
+		for changed := true; changed; {
+			changed = false
+			for _, d := range deferred {
+				if covered[d.fn] || len(callers[d.fn]) == 0 {
+					continue
+				}
+				all := true
+				for _, cf := range callers[d.fn] {
+					if cf == nil || !covered[cf] {
+						all = false
+					}
+				}
+				if all {
+					covered[d.fn] = true
+					changed = true
+				}
+			}
+		}
+		for _, d := range deferred {
+			if covered[d.fn] {
+				var names []string
+				for _, cf := range callers[d.fn] {
+					names = append(names, cf.Name())
+				}
+				c.R.OK("C18-3", d.key, d.pos, "unexported helper decided in the context of its callers ("+strings.Join(uniqueStrings(names), ", ")+"), each decided with the helper inlined")
+			} else {
+				c.R.Unknown("C18-3", d.key, d.pos, d.why)
+			}
+		}
+		c.R.Floor("C18-3", 15)
+	}()
 	for _, fn := range ModuleFuncs(prog) {
 		if fn.Pkg == nil || fn.Parent() != nil || fn.Synthetic != "" {
 			continue
@@ -378,14 +449,15 @@ func c18FailedCalls(c *Ctx, prog *load.Program) {
 		}
 		// these two copy a caller-supplied slice of symbolic length after a length test; they are decided with
 		// concrete lengths by C12-1 (all lengths 0..33) and C13-3 (length 32 / other lengths)
-		if fn.Name() == "bytesToCanonicalScalar" || fn.Name() == "NewSchnorrPublicKey" {
+		if fn == b2sHelper(prog) || fn.Name() == "NewSchnorrPublicKey" {
+			covered[fn] = true
 			continue
 		}
 		set := asn1Set()
 		if fn.Pkg.Pkg.Path() == models.Mod {
 			set = fieldSet()
 		} else {
-			b2sModel(set)
+			b2sModel(set, prog)
 			nonceModels(set)
 			signModels(set)
 			delete(set.Intercepts, models.SececPkg+".verify")
@@ -400,7 +472,7 @@ func c18FailedCalls(c *Ctx, prog *load.Program) {
 		key := "failed-call/" + shortFn(fn)
 		pos := PosOf(prog, fn)
 		if r.Err != nil || len(r.Ex.Fails) > 0 {
-			c.R.Unknown("C18-3", key, pos, r.Problem())
+			undecided(fn, key, pos, r.Problem())
 			continue
 		}
 		incomplete := ""
@@ -410,9 +482,10 @@ func c18FailedCalls(c *Ctx, prog *load.Program) {
 			}
 		}
 		if incomplete != "" {
-			c.R.Unknown("C18-3", key, pos, incomplete)
+			undecided(fn, key, pos, incomplete)
 			continue
 		}
+		covered[fn] = true
 		count++
 		errI := res.Len() - 1
 		acc, prob := acceptFormula(r, errI)
@@ -454,8 +527,20 @@ func c18FailedCalls(c *Ctx, prog *load.Program) {
 		}
 		c.R.Decide(msg == "", "C18-3", key, pos, "object result nil exactly when an error is returned; receiver unchanged on every failing path", msg)
 	}
-	c.R.Floor("C18-3", 15)
 	_ = count
+}
+
+func uniqueStrings(in []string) []string {
+	seen := map[string]bool{}
+	var out []string
+	for _, s := range in {
+		if !seen[s] {
+			seen[s] = true
+			out = append(out, s)
+		}
+	}
+	sort.Strings(out)
+	return out
 }
 
 // ---------------------------------------------------------------- 4: aliasing
